@@ -142,4 +142,12 @@ META = {
              "defect found this way (GetVBucketSeqNos ignoring the callback error) was repaired (fix: commit 8b0ff5b).",
         note="Wrappers with hard-coded 60 s deadlines are exercised with prompt / error / drop only (silence would cost a minute per case); cbMetadata.Load's fail-stop on errors is C15's; membership operations use the same helpers.",
     ),
+    "C10": dict(
+        technique="rapid-generated join/leave histories over real membership instances on a simulated bucket (child processes), leader/follower numbering with fake RPC clients, PUT sequences through the real HTTP API; numbering validity predicate at quiescence",
+        text="The numbering is checked as a validity predicate (same size, distinct numbers, join order) at every quiescent point of generated "
+             "histories, for the Couchbase heart-beat mechanism end to end on the wire, for the leader-assigned mechanism through the real "
+             "serviceDiscovery on both sides, and for the static / dynamic relays through the real API.",
+        note="Monitor-round interleavings are sampled by timers, not owned; convergence is a bounded wait re-run once (discarded_timing otherwise). "
+             "Kubernetes lease election and StatefulSet ordinal discovery need an API server / hostname control and are not exercised.",
+    ),
 }
